@@ -2148,6 +2148,19 @@ fn run_coord_case(m: &mut Model, rep: &mut Report, stream: &str, to: u64, mc: us
                 }
             }
         }
+        // index entries: release_by_handle never drops the `tx_locks` entry of a transaction, and a key taken over
+        // after expiry stays listed under its old owner — keys_for_transaction of an ended transaction may still
+        // name keys (now free or held by somebody else).  Not a lock; counted and reported once as an observation.
+        for tx in &ended {
+            let listed = rc.c.lock_manager().keys_for_transaction(rc.real_tx(*tx));
+            if !listed.is_empty() && !rc.locks().iter().any(|l| l.tx == *tx) {
+                if record { rep.hit("co.end.stale_index_keys_listed_for_ended_tx"); }
+                if record && !rep.observations.iter().any(|o| o.get("stale_index_after_end").is_some()) {
+                    rep.observe(json!({"stale_index_after_end": {"tx": tx, "keys_for_transaction": listed, "locks_held": 0, "trace": trace,
+                        "note": "LockManager::keys_for_transaction / lock_count_for_transaction of an ended transaction still list keys it no longer holds (tx_locks entries are only pruned key-by-key on release_by_handle and never removed; a key re-acquired by another transaction after expiry stays listed under the old owner)"}}));
+                }
+            }
+        }
         // quiescence: nothing pending, nothing in flight, nothing refused => the lock table is empty
         if rc.pending_dense().is_empty() && rc.votes.is_empty() && rc.unrecorded.is_empty() && !rc.locks().is_empty() {
             rep.violation("DistributedTxCoordinator/locks_remain_at_quiescence", "no transaction is pending and every vote was recorded, but locks remain", tr());
@@ -2274,6 +2287,60 @@ fn realtime_case(m: &mut Model, rep: &mut Report, r: &mut Rng) {
     rep.case(stream, Some(&key));
 }
 
+/// Lock-order experiment (liveness, outside the safety property): `commit` / `abort` / … hold `pending.write()`
+/// while they take the lock-table locks (`locks.write()` inside release_by_handle_with_wait_cleanup);
+/// `release_orphaned_locks` holds `locks.write()` + `tx_locks.write()` while it takes `pending.read()`.
+/// Two OS threads, one ending transactions, one sweeping; a watchdog reports whether both stop making progress.
+/// The threads are detached: if they block each other they stay blocked until the process exits.
+fn sweep_vs_end_lock_order(rep: &mut Report, rounds: u64, budget_ms: u64) {
+    let c = Arc::new(DistributedTxCoordinator::new(ConsensusManager::new(ConsensusConfig::default()), co_config(1_000_000)));
+    let done_a = Arc::new(AtomicU64::new(0));
+    let done_b = Arc::new(AtomicU64::new(0));
+    let stop = Arc::new(AtomicU64::new(0));
+    {
+        let (c, done, stop) = (c.clone(), done_a.clone(), stop.clone());
+        std::thread::spawn(move || {
+            for i in 0..rounds {
+                if stop.load(Ordering::Relaxed) != 0 { break; }
+                if let Ok(tx) = c.begin(&"n1".to_string(), &[0]) {
+                    let v = c.handle_prepare(&prep(tx.tx_id, &[i % 4], 0));
+                    let _ = c.record_vote(tx.tx_id, 0, v);
+                    if c.commit(tx.tx_id).is_err() { let _ = c.abort(tx.tx_id, "x"); }
+                }
+                done.store(i + 1, Ordering::Relaxed);
+            }
+            done.store(u64::MAX, Ordering::Relaxed);
+        });
+    }
+    {
+        let (c, done, stop) = (c.clone(), done_b.clone(), stop.clone());
+        std::thread::spawn(move || {
+            for i in 0..rounds {
+                if stop.load(Ordering::Relaxed) != 0 { break; }
+                let _ = c.release_orphaned_locks(0);
+                done.store(i + 1, Ordering::Relaxed);
+            }
+            done.store(u64::MAX, Ordering::Relaxed);
+        });
+    }
+    let t0 = std::time::Instant::now();
+    let (mut last, mut last_change) = ((0u64, 0u64), std::time::Instant::now());
+    let mut stuck = false;
+    loop {
+        std::thread::sleep(Duration::from_millis(5));
+        let cur = (done_a.load(Ordering::Relaxed), done_b.load(Ordering::Relaxed));
+        if cur.0 == u64::MAX || cur.1 == u64::MAX { break; }
+        if cur != last { last = cur; last_change = std::time::Instant::now(); }
+        if last_change.elapsed() > Duration::from_millis(1500) { stuck = true; break; }
+        if t0.elapsed() > Duration::from_millis(budget_ms) { break; }
+    }
+    stop.store(1, Ordering::Relaxed);
+    rep.case("threads.sweep_vs_end", None);
+    rep.hit(if stuck { "threads.sweep_vs_end.both_threads_blocked" } else { "threads.sweep_vs_end.no_block_observed" });
+    rep.observe(json!({"what": "lock order: end-of-transaction sites take pending.write() then the lock-table locks; release_orphaned_locks takes the lock-table locks then pending.read()",
+        "both_threads_stopped_making_progress_for_1500ms": stuck, "ended_transactions": last.0, "sweeps": last.1, "rounds": rounds}));
+}
+
 /// stream 10: coordinator op scripts (begin / handle_prepare / record_vote / every end-of-transaction site /
 /// cleanup_timeouts / recover / release_orphaned_locks / save-load) on the real coordinator vs the model
 fn coord_ops_stream(m: &mut Model, rep: &mut Report, root: &Rng, scale: u64) {
@@ -2328,6 +2395,13 @@ fn main() {
         "sched.lm.no_yield_inside_operations", "sched.coord.no_yield_inside_calls", "sched.coordinator.commit", "sched.coordinator.abort",
         "threads.coordinator.commit", "threads.coordinator.abort", "coord.A.waiter_registered", "coord.B.takeover_reached",
         "coord.B.elapsed_eq_timeout.conflict", "coord.C.both_timed_out",
+        "co.begin", "co.begin.refused", "co.prepare.yes", "co.prepare.conflict", "co.prepare.takeover_of_expired", "co.prepare.yes.tx_not_pending",
+        "co.vote.recorded", "co.vote.refused.notfound", "co.vote.refused.wrongphase", "co.vote.refused.duplicate", "co.vote.no",
+        "co.end.commit", "co.end.abort", "co.end.complete_commit", "co.end.complete_abort", "co.end.force_resolve_commit", "co.end.force_resolve_abort",
+        "co.end.force_resolve_commit.refused", "co.end.commit.wrongphase", "co.end.commit.notfound", "co.timeouts.some", "co.timeouts.none", "co.recover",
+        "co.recover.to_committing", "co.recover.timed_out", "co.sweep.removed", "co.sweep.none", "co.sweep.kept_lock_of_pending_tx",
+        "co.sweep.boundary_acquired_eq_start_kept", "co.saveload", "co.doom", "co.end.lock_left.vote_in_flight", "co.end.lock_left.vote_refused",
+        "graph2.clear", "graph2.stale.removed", "graph2.stale.none", "graph2.stale.boundary_elapsed_eq_ttl_kept", "graph2.wcc.true", "graph2.wcc.false",
     ].iter().map(|s| s.to_string()).collect();
     let mut m = Model::spawn(&args.driver);
     let root = Rng::new(args.seed);
@@ -2335,6 +2409,7 @@ fn main() {
 
     if args.extra.iter().any(|x| x == "--only-coord-ops") {
         coord_ops_stream(&mut m, &mut rep, &root, scale);
+        sweep_vs_end_lock_order(&mut rep, 200_000, 4_000);
         rep.write(&args.out);
         return;
     }
@@ -2435,7 +2510,7 @@ fn main() {
     }
 
     let mut r = root.fork("graph.ops2");
-    for _ in 0..600 * scale {
+    for _ in 0..400 * scale {
         graph_ops2_case(&mut m, &mut rep, &mut r);
     }
     // would_create_cycle on every digraph on 4 transactions, every (waiter, holder) pair, against the model
@@ -2455,7 +2530,7 @@ fn main() {
                 if ans != (w == h || oracle_reach(&eset, h, w)) {
                     rep.violation("WaitForGraph.would_create_cycle/wrong_answer", "would_create_cycle disagrees with reachability holder ->* waiter", json!({"edges": edge_list, "waiter": w, "holder": h, "got": ans}));
                 }
-                if (code + w * 4 + h) % 3 == 0 {
+                if (code + w * 4 + h) % 7 == 0 || args.thorough {
                     let mo = m.ask(&format!("xwcc {w} {h} {}", show_adj(&v.edges)));
                     rep.compare("graph.wcc.exhaustive.n4", || json!({"edges": edge_list, "waiter": w, "holder": h}), &ans.to_string(), &mo);
                 }
@@ -2513,6 +2588,8 @@ fn main() {
     lap("threads.coordinator");
     coord_ops_stream(&mut m, &mut rep, &root, scale);
     lap("coord.ops");
+    sweep_vs_end_lock_order(&mut rep, if args.thorough { 400_000 } else { 40_000 }, if args.thorough { 10_000 } else { 2_500 });
+    lap("threads.sweep_vs_end");
     rep.note("lock-table time: (a) table.ops — a virtual tick clock realised through the public serialize/restore path (acquired_at_ms shifted) on the wall clock; (b) table.clock*, sched.*, coord B — the frozen millisecond clock of the hook tensor_chain::distributed_tx::verif_clock (/repo 654184dd): KeyLock::is_expired is `elapsed > timeout` (not expired at elapsed == timeout), mirrored by the model and compared at timeout-1 / timeout / timeout+1 through every expiry-dependent operation");
     rep.note("DistributedTransaction::is_timed_out (coordinator-level transaction timeout) reads SystemTime directly and is not covered by the clock hook; scenario C sleeps 45 ms against a 20 ms prepare timeout");
     rep.note("iteration order of the private HashMap/HashSet of WaitForGraph is read from its Debug output and passed to the model as an explicit input");
